@@ -943,7 +943,11 @@ private:
           static_cast<std::mt19937::result_type>(
             std::hash<std::thread::id>{}(std::this_thread::get_id())));
         std::uniform_int_distribution<int> jitterDist(0, 99);
-        int backoffMs = (1 << attempt) * 100 + jitterDist(jitterRng);
+        // Clamp the exponent: (1 << attempt) * 100 overflows int from attempt 25 on
+        // (undefined behaviour; in practice a negative delay, i.e. no back-off at
+        // all) and the shift itself is undefined from attempt 31 on. 2^16 * 100 ms
+        // (~1.8 h) is the ceiling of the exponential back-off.
+        int backoffMs = (1 << std::min(attempt, 16)) * 100 + jitterDist(jitterRng);
         std::this_thread::sleep_for(std::chrono::milliseconds(backoffMs));
         attempt++;
       }
